@@ -131,6 +131,9 @@ impl<T: Sync + Send + 'static> Worker<T> {
             self.matches.par_extend(items);
             #[cfg(nucleo_verif)]
             crate::verif::permute_in_flight(&mut self.in_flight[in_flight_before..]);
+            // the pool threads report in-flight items in arbitrary order but
+            // `remove_in_flight_matches` relies on ascending indices
+            self.in_flight.sort_unstable();
             self.last_snapshot = end;
         }
     }
